@@ -216,30 +216,12 @@ class RefUnpickler(pickle._Unpickler):
                                  "T" if self.halted else "F")
 
 
-def _setitems_flag(self):
-    """D18 precondition: SETITEMS whose target is a stand-in object and whose keys are not pairwise
-    distinct hashable values (the decompiled `x.update({...})` hashes and merges them)"""
-    try:
-        if not (self.metastack and self.metastack[-1] and isinstance(self.metastack[-1][-1], Stub)):
-            return False
-        keys = self.stack[0::2]
-        try:
-            return len(set(keys)) < len(keys)
-        except TypeError:
-            return True
-    except Exception:
-        return False
-
-
 def _wrap(fn):
     is_build = fn is pickle._Unpickler.load_build
-    is_setitems = fn is pickle._Unpickler.load_setitems
 
     def handler(self):
         if is_build and len(self.stack) >= 2 and not isinstance(self.stack[-2], Stub):
             self.world.flags.add("build-on-plain-value")
-        if is_setitems and _setitems_flag(self):
-            self.world.flags.add("setitems-on-object")
         fn(self)
         self.trace.append(self._shape())
     return handler
